@@ -93,7 +93,7 @@ def rnd_words(rng):
         else:
             sign = rng.choice(['', '', '-', '+'])
             ip = rng.choice(['', '0', '5', '12', '007', '123456'])
-            fp = rng.choice(['', '5', '25', '000', '125'])
+            fp = rng.choice(['', '5', '25', '000', '125', '000004', '1234567', '123456789', '00000049'])
             if not ip and not fp:
                 ip = '3'
             ws.append((l, (sign, ip, fp)))
